@@ -5,6 +5,7 @@ pub mod asyncx;
 pub mod cb;
 pub mod chainrt;
 pub mod extra;
+pub mod joiners;
 pub mod log;
 pub mod model;
 pub mod oracle;
@@ -15,3 +16,17 @@ pub mod sched;
 pub mod sem;
 pub mod threads;
 pub mod tok;
+
+#[doc(hidden)]
+pub use futures as __futures;
+
+/// Stand-in for the futures crate (see `joiners`): everything the expansions name under
+/// `futures_crate_path`.
+pub mod fx {
+    pub use crate::jv_fx_join as join;
+    pub use crate::jv_fx_try_join as try_join;
+    pub use futures::{FutureExt, StreamExt, TryFutureExt, TryStreamExt};
+    pub mod future {
+        pub use futures::future::*;
+    }
+}
